@@ -87,12 +87,17 @@ type devKey struct {
 	f9DER  []byte
 	dP, dQ *big.Int
 	qInv   *big.Int
+	// slowD: for a key with more than two primes the private exponent is used directly
+	slowD *big.Int
 }
 
 // signRaw computes EM^d mod N with CRT.
 func (d *devKey) signRaw(emsg []byte) []byte {
 	c := new(big.Int).SetBytes(emsg)
 	c.Mod(c, d.priv.N)
+	if d.slowD != nil {
+		return new(big.Int).Exp(c, d.slowD, d.priv.N).FillBytes(make([]byte, d.k))
+	}
 	p, q := d.priv.Primes[0], d.priv.Primes[1]
 	m1 := new(big.Int).Exp(c, d.dP, p)
 	m2 := new(big.Int).Exp(c, d.dQ, q)
@@ -102,6 +107,35 @@ func (d *devKey) signRaw(emsg []byte) []byte {
 	m := h.Mul(h, q)
 	m.Add(m, m2)
 	return m.FillBytes(make([]byte, d.k))
+}
+
+// hugeKey makes an 8192-bit RSA key out of eight 1024-bit primes (cheap to generate; a device key of that size has a
+// padding string of about a thousand octets).
+func hugeKey() *devKey {
+	e, one := big.NewInt(65537), big.NewInt(1)
+	for {
+		n, phi := big.NewInt(1), big.NewInt(1)
+		var primes []*big.Int
+		for len(primes) < 8 {
+			p, err := rand.Prime(rand.Reader, 1024)
+			if err != nil {
+				panic(err)
+			}
+			pm1 := new(big.Int).Sub(p, one)
+			if new(big.Int).GCD(nil, nil, e, pm1).Cmp(one) != 0 {
+				continue
+			}
+			primes = append(primes, p)
+			n.Mul(n, p)
+			phi.Mul(phi, pm1)
+		}
+		dd := new(big.Int).ModInverse(e, phi)
+		if dd == nil || n.BitLen() < 8185 {
+			continue
+		}
+		k := &rsa.PrivateKey{PublicKey: rsa.PublicKey{N: n, E: 65537}, D: dd, Primes: primes}
+		return &devKey{priv: k, k: (n.BitLen() + 7) / 8, slowD: dd}
+	}
 }
 
 // smallExponentKey makes an RSA key with public exponent 3.
@@ -210,6 +244,9 @@ type attCase struct {
 }
 
 var ring *ev.Ring
+
+// hugeCases submits the cases of the 8192-bit device key (set up in main, run with the other jobs).
+var hugeCases func(submit func(d *devKey, f9 *x509.Certificate, ac attCase, emsg, sigOverride, tbs []byte))
 
 // goneAtt is an attestor whose root files were removed after it was built.
 var goneAtt *yubiattest.Attestor
@@ -380,6 +417,25 @@ func main() {
 			d.f9, d.f9DER = p.issue(&d.priv.PublicKey, p.root, p.rootKey, now.Add(-48*time.Hour), now.Add(4800*time.Hour))
 		}
 		r.Extra("device_key_bits", sizes)
+		// a device key of 8192 bits: the padding string is ~970 octets long and every one of them counts
+		huge := hugeKey()
+		huge.f9, huge.f9DER = p.issue(&huge.priv.PublicKey, p.root, p.rootKey, now.Add(-48*time.Hour), now.Add(4800*time.Hour))
+		hugeCases = func(submit func(d *devKey, f9 *x509.Certificate, ac attCase, emsg, sigOverride, tbs []byte)) {
+			tbs := gen.Bytes(r.CaseAlways("huge", 0).Rand, 300)
+			h := hashes[1]
+			t := append(append([]byte{}, h.prefix(true)...), h.sum(tbs)...)
+			good := em(huge.k, t)
+			submit(huge, huge.f9, attCase{What: "correct:8192-bit-key", Expect: "accept", Alg: int(h.alg)}, good, nil, tbs)
+			last := huge.k - len(t) - 2
+			for _, pos := range []int{2, 3, 100, 511, 512, 513, 514, 515, 516, 600, 777, 971, last - 1, last} {
+				if pos < 2 || pos > last {
+					continue
+				}
+				bad := append([]byte{}, good...)
+				bad[pos] ^= 0x01
+				submit(huge, huge.f9, attCase{What: "padding-octet-altered:8192-bit-key", Expect: "reject", Alg: int(h.alg), Position: pos}, bad, nil, tbs)
+			}
+		}
 		// the attestors live on while time passes: a device certificate that lapses (or becomes valid) after they were
 		// built is judged at the time of the attestation, not of the construction. First look now, second look at the end.
 		lapse := now.Add(3 * time.Second)
@@ -490,6 +546,9 @@ func main() {
 			}
 		}
 
+		if hugeCases != nil {
+			hugeCases(submit)
+		}
 		sampled := 0
 		for ki, d := range keys {
 			bits := d.priv.N.BitLen()
